@@ -1,5 +1,236 @@
-/- Oracle driver for C03 (stub: replaced when the property's model is built). -/
+/-
+Oracle driver for C03 (and, through `extra`, for C01/C02): executes `Model/Layout` + `Model/Hseq`
+on the request lines printed by the layout harness.
+
+Stateful line protocol.  `shape <sid> <type-sexpr>` sets the current shape `$S`; every other
+request refers to it.  Type s-expressions:
+
+  T ::= bool | int8 | … | string | iface | unsafeptr | $S
+      | (slice T) | (ptr T) | (map T T) | (chan T) | (func HEX) | (array N T)
+      | (struct F*) | (named ID T)
+  F ::= (f NAME 0|1 TAGHEX|- T)
+
+Requests (result after `=>` in the harness output):
+  shape sid T                      size align
+  offs sid i.j.k                   off size align          (value selector path)
+  list sid T                       full listing of hseq.New[T]()  or panic:<class>
+  forname sid NAME                 ok ID | panic:errType
+  fornamemaybe sid NAME            some ID | none
+  fortype sid T                    ok ID | panic:errType
+  new sid T NAME*                  ok ID* | panic:<class>
+  newn sid T T*                    ok ID* | panic:<class>
+  fmap sid K N                     ok 1:ID … N:ID | panic:index     (ts = first K entries of the listing)
+-/
+import Golem.Model.Hseq
 import Golem.Driver.Util
 namespace Golem.Driver.C03
-def main : IO Unit := IO.eprintln "oracle: no driver for C03 yet"
+open Golem.Model Golem.Driver
+
+inductive SExp where
+  | atom (s : String)
+  | list (xs : List SExp)
+  deriving Inhabited
+
+def tokenize (s : String) : List String :=
+  let (toks, cur) := s.toList.foldl (fun (acc : List String × List Char) c =>
+    let (toks, cur) := acc
+    let flush := if cur.isEmpty then toks else String.ofList cur.reverse :: toks
+    if c == '(' then ("(" :: flush, [])
+    else if c == ')' then (")" :: flush, [])
+    else if c == ' ' || c == '\t' then (flush, [])
+    else (toks, c :: cur)) ([], [])
+  (if cur.isEmpty then toks else String.ofList cur.reverse :: toks).reverse
+
+mutual
+partial def parseS : List String → Option (SExp × List String)
+  | [] => none
+  | "(" :: rest => (parseList rest []).map (fun (xs, r) => (.list xs, r))
+  | ")" :: _ => none
+  | a :: rest => some (.atom a, rest)
+partial def parseList : List String → List SExp → Option (List SExp × List String)
+  | [], _ => none
+  | ")" :: rest, acc => some (acc.reverse, rest)
+  | toks, acc =>
+    match parseS toks with
+    | some (x, rest) => parseList rest (x :: acc)
+    | none => none
+end
+
+/-- Parse a sequence of s-expressions until the tokens run out. -/
+partial def parseMany : List String → Option (List SExp)
+  | [] => some []
+  | toks =>
+    match parseS toks with
+    | some (x, rest) => (parseMany rest).map (x :: ·)
+    | none => none
+
+def hexVal (c : Char) : Option Nat :=
+  if '0' ≤ c && c ≤ '9' then some (c.toNat - '0'.toNat)
+  else if 'a' ≤ c && c ≤ 'f' then some (c.toNat - 'a'.toNat + 10)
+  else none
+
+def unhex : List Char → Option (List Char)
+  | [] => some []
+  | a :: b :: rest =>
+    match hexVal a, hexVal b, unhex rest with
+    | some x, some y, some r => some (Char.ofNat (16 * x + y) :: r)
+    | _, _, _ => none
+  | _ => none
+
+def hexStr (s : String) : Option String :=
+  if s == "-" then some "" else (unhex s.toList).map String.ofList
+
+def primOf : String → Option Prim
+  | "bool" => some .bool | "int8" => some .int8 | "int16" => some .int16 | "int32" => some .int32
+  | "int64" => some .int64 | "uint8" => some .uint8 | "uint16" => some .uint16 | "uint32" => some .uint32
+  | "uint64" => some .uint64 | "int" => some .int | "uint" => some .uint | "uintptr" => some .uintptr
+  | "float32" => some .float32 | "float64" => some .float64 | "complex64" => some .complex64
+  | "complex128" => some .complex128 | "string" => some .string | "iface" => some .iface
+  | "unsafeptr" => some .unsafeptr
+  | _ => none
+
+mutual
+partial def toType (cur : Option GoType) : SExp → Option GoType
+  | .atom "$S" => cur
+  | .atom a => (primOf a).map .prim
+  | .list [.atom "slice", t] => (toType cur t).map .slice
+  | .list [.atom "ptr", t] => (toType cur t).map .ptr
+  | .list [.atom "chan", t] => (toType cur t).map .chan
+  | .list [.atom "map", k, v] => do let k ← toType cur k; let v ← toType cur v; pure (.map k v)
+  | .list [.atom "func", .atom h] => (hexStr h).map .func
+  | .list [.atom "array", .atom n, t] => do let n ← n.toNat?; let t ← toType cur t; pure (.array n t)
+  | .list [.atom "named", .atom id, t] => (toType cur t).map (.named id)
+  | .list (.atom "struct" :: fs) => (toFields cur fs).map .struct
+  | _ => none
+partial def toFields (cur : Option GoType) : List SExp → Option Fields
+  | [] => some .nil
+  | .list [.atom "f", .atom name, .atom emb, .atom tag, t] :: rest => do
+    let tg ← hexStr tag
+    let t ← toType cur t
+    let r ← toFields cur rest
+    pure (.cons name (emb == "1") tg t r)
+  | _ => none
+end
+
+/-! `reflect.Type.String()` for the generated fragment (display only). -/
+
+def primStr : Prim → String
+  | .bool => "bool" | .int8 => "int8" | .int16 => "int16" | .int32 => "int32" | .int64 => "int64"
+  | .uint8 => "uint8" | .uint16 => "uint16" | .uint32 => "uint32" | .uint64 => "uint64"
+  | .int => "int" | .uint => "uint" | .uintptr => "uintptr" | .float32 => "float32"
+  | .float64 => "float64" | .complex64 => "complex64" | .complex128 => "complex128"
+  | .string => "string" | .iface => "interface {}" | .unsafeptr => "unsa" ++ "fe.Pointer"
+
+def quote (s : String) : String :=
+  "\"" ++ String.join (s.toList.map (fun c => if c == '"' then "\\\"" else if c == '\\' then "\\\\" else c.toString)) ++ "\""
+
+mutual
+partial def typeStr : GoType → String
+  | .prim p => primStr p
+  | .slice t => "[]" ++ typeStr t
+  | .ptr t => "*" ++ typeStr t
+  | .map k v => "map[" ++ typeStr k ++ "]" ++ typeStr v
+  | .chan t => "chan " ++ typeStr t
+  | .func sig => sig
+  | .array n t => "[" ++ toString n ++ "]" ++ typeStr t
+  | .struct .nil => "struct {}"
+  | .struct fs => "struct { " ++ "; ".intercalate (fieldStrs fs) ++ " }"
+  | .named id _ => "main." ++ id
+partial def fieldStrs : Fields → List String
+  | .nil => []
+  | .cons n e tg t r =>
+    ((if e then typeStr t else n ++ " " ++ typeStr t) ++ (if tg == "" then "" else " " ++ quote tg)) :: fieldStrs r
+end
+
+def showEntry (e : Entry) : String :=
+  s!"{e.id} {e.field.name} {e.fieldKey} {if e.field.emb then 1 else 0} {e.offset} {e.rootOffs}|{typeStr e.field.type}|{typeStr e.pureType}"
+
+def showListing (es : List Entry) : String := " || ".intercalate (es.map showEntry)
+
+def showIds (es : List Entry) : String := " ".intercalate ("ok" :: es.map (fun e => toString e.id))
+
+def exceptStr {α : Type} (f : α → String) : Except Panic α → String
+  | .ok a => f a
+  | .error p => p.str
+
+def parsePath (s : String) : Option (List Nat) := (s.splitOn ".").mapM String.toNat?
+
+/-- Parse the remaining tokens as a list of types. -/
+def typesOf (cur : Option GoType) (toks : List String) : Option (List GoType) := do
+  let xs ← parseMany toks
+  xs.mapM (toType cur)
+
+/-- Handle one request; `extra` answers the kinds this driver does not know (C01/C02). -/
+def step (extra : GoType → List String → Option String) (cur : Option GoType) (line : String) : Option GoType × String :=
+  match tokenize line with
+  | "shape" :: _sid :: rest =>
+    match typesOf none rest with
+    | some [t] => (some t, s!"{t.size} {t.align}")
+    | _ => (cur, "bad-shape")
+  | kind :: _sid :: args =>
+    match cur with
+    | none => (cur, "no-shape")
+    | some S =>
+      let out : String :=
+        match kind, args with
+        | "offs", [p] =>
+          match parsePath p with
+          | some π =>
+            match pathLookup S π with
+            | some (o, t) => s!"{o} {t.size} {t.align}"
+            | none => "none"
+          | none => "bad-path"
+        | "list", ts =>
+          match typesOf cur ts with
+          | some [T] => exceptStr showListing (hseqNew T [])
+          | _ => "bad-type"
+        | "forname", [name] =>
+          exceptStr (fun seq => exceptStr (fun (e : Entry) => s!"ok {e.id}") (forName seq name)) (hseqNew S [])
+        | "fornamemaybe", [name] =>
+          exceptStr (fun seq => match forNameMaybe seq name with
+            | some e => s!"some {e.id}" | none => "none") (hseqNew S [])
+        | "fortype", ts =>
+          match typesOf cur ts with
+          | some [A] => exceptStr (fun seq => exceptStr (fun (e : Entry) => s!"ok {e.id}") (forType seq A)) (hseqNew S [])
+          | _ => "bad-type"
+        | "new", ts =>
+          match parseS ts with
+          | some (t, names) =>
+            match toType cur t with
+            | some T => exceptStr showIds (hseqNew T names)
+            | none => "bad-type"
+          | none => "bad-type"
+        | "newn", ts =>
+          match typesOf cur ts with
+          | some (T :: As) => exceptStr showIds (newN T As)
+          | _ => "bad-type"
+        | "fmap", [k, n] =>
+          match k.toNat?, n.toNat? with
+          | some k, some n =>
+            exceptStr (fun seq =>
+              let fs : List (Entry → Except Panic String) :=
+                (List.range n).map (fun i => fun (e : Entry) => .ok s!"{i + 1}:{e.id}")
+              exceptStr (fun tr => " ".intercalate ("ok" :: tr)) (fmapN (seq.take k) fs)) (hseqNew S [])
+          | _, _ => "bad-args"
+        | _, _ =>
+          match extra S (kind :: args) with
+          | some r => r
+          | none => "bad-request"
+      (cur, out)
+  | _ => (cur, "bad-request")
+
+partial def loop (extra : GoType → List String → Option String) : IO Unit := do
+  let stdin ← IO.getStdin
+  let stdout ← IO.getStdout
+  let rec go (cur : Option GoType) : IO Unit := do
+    let line ← stdin.getLine
+    if line.isEmpty then return ()
+    let l := line.dropRightWhile (fun c => c == '\n' || c == '\r')
+    let (cur', out) := step extra cur l
+    stdout.putStrLn out
+    go cur'
+  go none
+  stdout.flush
+
+def main : IO Unit := loop (fun _ _ => none)
 end Golem.Driver.C03
